@@ -155,7 +155,7 @@ func runC09(c *core.Ctx) {
 		// the last step's products and the final-product directory derived from them
 		products := map[string]string{"pkg.tar": "PKG\nline2\n", "doc.txt": "documentation\n"}
 		final := map[string]string{"keep": "x"} // InTotoVerifyWithDirectory wants a non-empty directory
-		delta := []string{"untouched", "added", "removed", "modified", "line-endings-only", "added-non-ascii-name"}[r.Intn(6)]
+		delta := []string{"untouched", "added", "removed", "modified", "line-endings-only", "added-non-ascii-name", "added-name-of-a-kind-tools-like-to-ignore"}[r.Intn(7)]
 		if i%4 == 0 {
 			delta = "untouched"
 		}
@@ -165,6 +165,8 @@ func runC09(c *core.Ctx) {
 		switch delta {
 		case "added":
 			final["added.bin"] = "extra"
+		case "added-name-of-a-kind-tools-like-to-ignore":
+			final[[]string{"payload.pyc", "backup~", ".git", "module.pyc", "notes.txt~", ".gitignore", "x.swp", ".DS_Store"}[r.Intn(8)]] = "extra"
 		case "added-non-ascii-name":
 			final[[]string{"é.evil", "payload-ü.evil", "更新.evil", "Ünï.evil"}[r.Intn(4)]] = "extra"
 		case "removed":
@@ -213,7 +215,7 @@ func runC09(c *core.Ctx) {
 		lmd.Dump(filepath.Join(linkDir, gen.LinkName("package", fast[1].Pub.KeyID)))
 		// inspections
 		nInsp := r.Intn(4)
-		if delta == "added-non-ascii-name" && nInsp == 0 {
+		if (delta == "added-non-ascii-name" || delta == "added-name-of-a-kind-tools-like-to-ignore") && nInsp == 0 {
 			nInsp = 1
 		}
 		var specs []inspSpec
@@ -224,6 +226,14 @@ func runC09(c *core.Ctx) {
 				// REQUIRE alone decides: the named file does not exist (a file its name would match as a pattern does)
 				s.Mats, s.Prods = [][]string{{"REQUIRE", prefix + []string{"doc?txt", "pkg.ta[r]", "*"}[r.Intn(3)]}, {"ALLOW", "*"}}, [][]string{{"ALLOW", "*"}}
 			}
+			if delta == "added-name-of-a-kind-tools-like-to-ignore" && j == 0 && r.Intn(2) == 0 {
+				// the extra file alone decides: everything must be what the last step recorded
+				m := []string{"MATCH", "*", "WITH", "PRODUCTS", "FROM", "package"}
+				if prefix != "" {
+					m = []string{"MATCH", "*", "IN", strings.TrimSuffix(prefix, "/"), "WITH", "PRODUCTS", "FROM", "package"}
+				}
+				s.Mats, s.Prods = [][]string{m, {"ALLOW", "*.link"}, {"ALLOW", prefix + "keep"}, {"DISALLOW", "*"}}, [][]string{{"ALLOW", "*"}}
+			}
 			if delta == "added-non-ascii-name" && (j == 0 || r.Intn(2) == 0) {
 				s.Mats = append([][]string{{"DISALLOW", prefix + "*.evil"}}, s.Mats...)
 				if j == 0 && r.Intn(2) == 0 {
@@ -231,7 +241,7 @@ func runC09(c *core.Ctx) {
 					s.Mats, s.Prods = [][]string{{"DISALLOW", prefix + "*.evil"}, {"ALLOW", "*"}}, [][]string{{"ALLOW", "*"}}
 				}
 			}
-			switch r.Intn(9) {
+			switch r.Intn(8) {
 			case 0:
 				s.Actions = []string{"create:made-by-inspection:hello"}
 			case 1:
@@ -239,6 +249,11 @@ func runC09(c *core.Ctx) {
 			case 2:
 				if r.Intn(2) == 0 {
 					s.Actions = []string{"delete:doc.txt"}
+					if r.Intn(2) == 0 {
+						// a deleted file is not a modified file: MODIFY must leave it to the DISALLOW behind it
+						s.Mats = [][]string{{"MODIFY", "*"}, {"ALLOW", prefix + "pkg.tar"}, {"ALLOW", prefix + "keep"}, {"ALLOW", "*.link"}, {"ALLOW", prefix + "added.bin"}, {"ALLOW", prefix + "aaa"}, {"DISALLOW", "*"}}
+						s.Prods = [][]string{{"ALLOW", "*"}}
+					}
 				} else {
 					// other content of the same size, modification time restored
 					s.Actions = []string{"samesize:pkg.tar"}
@@ -418,7 +433,7 @@ func init() {
 	core.Register(&core.Property{
 		ID:    "C09",
 		Level: "exploration",
-		Rule: "seeded cases: final-product directory = the last step's products with files {untouched, added, added under a non-ASCII name that a DISALLOW *.evil rule must catch, removed, modified, modified in line endings only}, in a quarter of the cases plus a symlink to a directory that sorts first; 0-3 inspections whose command is `vhelper inspect` with an action from {no-op, create / modify / delete a file, replace a file by other content of the same size with its modification time restored, exit 1/2/127/255, kill 9/15} or a missing / non-executable program; inspection rule lists drawn from a 20-24-rule vocabulary (incl. REQUIRE with names that would match as patterns) (MATCH against the last step's products/materials with and without IN <run dir>, against an earlier inspection, ALLOW/DISALLOW/REQUIRE/CREATE/MODIFY/DELETE with run-dir-prefixed names) + terminal DISALLOW *; step link recorded with sha256 / sha256+sha512 / sha512 only; step-phase defect in 1/7 of the cases; entry points plain, run dir relative, run dir absolute; both wrappers; line normalisation on in 1/3. Oracle: reference rule interpreter over the directory snapshots the command itself logged (before/after, raw or normalised digests) and the step links; execution order / exactly once / not after a failing command / not before the step checks from the log and the inspection_exec events. " +
+		Rule: "seeded cases: final-product directory = the last step's products with files {untouched, added, added under a name of the kind tools like to ignore (*.pyc, *~, .git, .DS_Store...), added under a non-ASCII name that a DISALLOW *.evil rule must catch, removed, modified, modified in line endings only}, in a quarter of the cases plus a symlink to a directory that sorts first; 0-3 inspections whose command is `vhelper inspect` with an action from {no-op, create / modify / delete a file, replace a file by other content of the same size with its modification time restored, exit 1/2/127/255, kill 9/15} or a missing / non-executable program; inspection rule lists drawn from a 20-24-rule vocabulary (incl. REQUIRE with names that would match as patterns) (MATCH against the last step's products/materials with and without IN <run dir>, against an earlier inspection, ALLOW/DISALLOW/REQUIRE/CREATE/MODIFY/DELETE with run-dir-prefixed names) + terminal DISALLOW *; step link recorded with sha256 / sha256+sha512 / sha512 only; step-phase defect in 1/7 of the cases; entry points plain, run dir relative, run dir absolute; both wrappers; line normalisation on in 1/3. Oracle: reference rule interpreter over the directory snapshots the command itself logged (before/after, raw or normalised digests) and the step links; execution order / exactly once / not after a failing command / not before the step checks from the log and the inspection_exec events. " +
 			"non-trivial = at least one inspection; distinct = hash of the whole case",
 		Assumptions: []string{"an empty run list is not generated (the statement does not say what should happen)", "the snapshot taken inside the command equals what the library records directly before/after it"},
 		Workers:     func(string) int { return 16 },
